@@ -7,7 +7,7 @@ from .. import lit
 from ..core import AnalysisError
 from ..flow import PathFacts, CallCount, split_and
 from ..src import Locals, call_name, calls_in, dotted, kwarg, mod, norm, walk_local
-from . import c13
+from . import c13, c14
 
 INIT = "__init__.py"
 PIO = "toolchain/pio.py"
@@ -285,5 +285,7 @@ def run(cx):
     # ---- project configuration (shared with C13) --------------------------------------------
     plats = lit.table(mp, "SUPPORTED_PLATFORMS")
     all_boards = sorted(set().union(*plats.values()))
+    c13.rule_validate(cx, mp, "C12-VALIDATE")
+    c14.rule_agree(cx, "C12-LIBS", libs_only=True)
     c13.rule_write(cx, mp, "C12-PROJECT")
     c13.rule_ini(cx, mp, "C12-INI", all_boards)
